@@ -507,6 +507,14 @@ func (p *Prog) PanicSites(fns map[*ssa.Function]bool) ([]PanicSite, error) {
 					if MatchCC(&x.Call, abortCalls...) {
 						add("abort", x.Pos(), "")
 					}
+					// t := reflect.TypeOf(v); t.Kind(): TypeOf of a nil interface is a nil Type, any method call on it panics
+					if x.Call.IsInvoke() {
+						if pk, tn := NamedOf(x.Call.Value.Type()); pk == "reflect" && tn == "Type" {
+							if tc := typeOfCall(x.Call.Value); tc != nil {
+								add("niltype", x.Pos(), nilTypeGuard(x, tc))
+							}
+						}
+					}
 					if f := CalleeObj(&x.Call); f != nil && f.Pkg() != nil && f.Pkg().Path() == "math/rand" {
 						switch f.Name() {
 						case "Intn", "Int63n", "Int31n", "Perm":
@@ -522,6 +530,57 @@ func (p *Prog) PanicSites(fns map[*ssa.Function]bool) ([]PanicSite, error) {
 	}
 	sort.SliceStable(out, func(i, j int) bool { return out[i].Pos < out[j].Pos })
 	return out, nil
+}
+
+// typeOfCall: v is (only) the result of a reflect.TypeOf call; returns that call.
+func typeOfCall(v ssa.Value) *ssa.Call {
+	rs := Roots(v, false)
+	if len(rs) != 1 {
+		return nil
+	}
+	cl, _ := rs[0].(*ssa.Call)
+	if cl == nil || !MatchCC(&cl.Call, Spec{"reflect", "", "TypeOf"}) {
+		return nil
+	}
+	return cl
+}
+
+// nilTypeGuard: why reflect.TypeOf(arg) cannot be the nil Type at the method call.
+func nilTypeGuard(at *ssa.Call, tc *ssa.Call) string {
+	arg := tc.Call.Args[0]
+	var isConcrete func(v ssa.Value, d int) bool
+	isConcrete = func(v ssa.Value, d int) bool {
+		switch x := v.(type) {
+		case *ssa.MakeInterface:
+			_, isIface := x.X.Type().Underlying().(*types.Interface)
+			return !isIface
+		case *ssa.Phi:
+			if d > 3 {
+				return false
+			}
+			for _, e := range x.Edges {
+				if !isConcrete(e, d+1) {
+					return false
+				}
+			}
+			return len(x.Edges) > 0
+		}
+		return false
+	}
+	if isConcrete(arg, 0) {
+		return "reflect.TypeOf of a value of a concrete (non-interface) type is never the nil Type"
+	}
+	for _, f := range CmpFactsAt(at) {
+		if f.Op != token.NEQ {
+			continue
+		}
+		for _, pr := range [][2]ssa.Value{{f.X, f.Y}, {f.Y, f.X}} {
+			if IsNilConst(pr[1]) && (sameValue(pr[0], arg) || sameValue(pr[0], at.Call.Value) || pr[0] == ssa.Value(tc)) {
+				return "dominated by a != nil test of the value / of the Type"
+			}
+		}
+	}
+	return ""
 }
 
 // lenOf reports whether v is len(x) with x the same value (by roots) as coll.
